@@ -3,6 +3,7 @@ package main
 import (
 	"context"
 	"fmt"
+	"os"
 	"sort"
 	"strconv"
 	"strings"
@@ -51,6 +52,7 @@ type stickyInfo struct {
 }
 
 type episode struct {
+	fired  bool // the client's delayed background refresh ran inside the episode
 	sticky stickyInfo
 	sf    *sfState
 	s     *sim
@@ -155,12 +157,15 @@ func (e *episode) exec(line string) {
 		e.emit(line, e.newClient(), false)
 	case "refresh":
 		// twice: the first call may only have waited for a pending lazy refresh that started before `serve`
+		e.s.mu.Lock()
+		e.s.inRefresh = true
+		e.s.mu.Unlock()
 		err := e.vc.Refresh(ctx)
 		if err == nil {
 			err = e.vc.Refresh(ctx)
 		}
 		e.s.mu.Lock()
-		e.s.armed = false
+		e.s.armed, e.s.inRefresh = false, false
 		e.s.mu.Unlock()
 		if err != nil {
 			e.emit(line, "err "+showResult(rueidis.NewErrorResult(err)), false)
@@ -362,28 +367,40 @@ func (e *episode) exec(line string) {
 			<-sf.release
 			return nil
 		}
+		// No decision here depends on elapsed time: who leads is read off the call's own state changes, which happen
+		// synchronously in the locked prefix of Do / DelayDo (cn++ ; ch set), and is confirmed by events (fn started,
+		// callers released at sf-finish). The polls below only wait for an event that must come; their guard
+		// reports "stuck" instead of guessing.
+		waitFor := func(cond func() bool) bool {
+			for dl := time.Now().Add(60 * time.Second); !cond(); time.Sleep(50 * time.Microsecond) {
+				if time.Now().After(dl) {
+					return false
+				}
+			}
+			return true
+		}
 		runs0, cn0 := atomic.LoadInt32(&sf.runs), sf.call.Suppressing()
+		lead, stuck := false, false
 		if w[0] == "sf-enter" {
 			id, _ := strconv.Atoi(w[1])
+			flying := sf.call.InFlight() // the harness is the only source of callers: nobody else can start a flight now
 			go func() {
 				sf.call.Do(context.Background(), fn)
 				sf.returned <- id
 			}()
-			for sf.call.Suppressing() == cn0 { // the locked prefix of Do has run once cn moved
-				time.Sleep(50 * time.Microsecond)
-			}
+			stuck = !waitFor(func() bool { return sf.call.Suppressing() == cn0+1 }) // the locked prefix of Do has run
 			sf.blocked++
+			lead = !flying
+			if lead { // a leader runs fn
+				stuck = stuck || !waitFor(func() bool { return atomic.LoadInt32(&sf.runs) > runs0 })
+			}
 		} else {
 			sf.call.DelayDo(0, fn)
-		}
-		lead := false
-		for dl := time.Now().Add(40 * time.Millisecond); time.Now().Before(dl); time.Sleep(100 * time.Microsecond) {
-			if atomic.LoadInt32(&sf.runs) > runs0 {
-				lead = true
-				break
-			}
+			lead = sf.call.Suppressing() == cn0+1 // DelayDo counts itself only when it starts a flight
 		}
 		switch {
+		case stuck:
+			e.emit(line, "stuck", true)
 		case lead:
 			sf.inflight = true
 			e.emit(line, "leader", true)
@@ -478,6 +495,7 @@ func (e *episode) loadScript(ws []string) {
 	defer e.s.mu.Unlock()
 	e.s.script = nil
 	e.s.events = nil
+	e.s.redirTargets = map[string]bool{}
 	e.s.last = map[int]execInfo{}
 	for _, w := range ws {
 		e.s.script = append(e.s.script, parseInjSpec(w))
@@ -605,18 +623,31 @@ func runEpisodeLines(c *Ctx, lines []string) {
 					continue // trace oracle lines are regenerated from the run
 				}
 				e.exec(l)
+				// between two ops: a scheduled background refresh that is no longer pending has run
+				if e.vc != nil && e.s != nil {
+					e.s.mu.Lock()
+					armed := e.s.armed
+					e.s.mu.Unlock()
+					if armed && !e.vc.RefreshPending() {
+						e.fired = true
+					}
+				}
 			}
-			fired := false
+			fired := e.fired
 			if e.vc != nil {
 				e.s.mu.Lock()
 				armed := e.s.armed
+				fired = fired || e.s.lazyFired
 				e.s.mu.Unlock()
-				fired = armed && !e.vc.RefreshPending()
+				fired = fired || (armed && !e.vc.RefreshPending())
 			}
 			if !fired {
 				break
 			}
 			c.Hit("episode:rerun-lazy-refresh-fired")
+			if os.Getenv("VERIF_DEBUG_RERUN") != "" {
+				fmt.Fprintf(os.Stderr, "rerun try=%d lazyFired=%v efired=%v: %s\n", try, e.s.lazyFired, e.fired, strings.Join(cur, " || ")[:min(900, len(strings.Join(cur, " || ")))])
+			}
 		}
 		for i, o := range e.out {
 			c.Emit(o[0], o[1], e.nt[i])
